@@ -712,11 +712,6 @@ func (s *Session) SetUnmarshaller(unmarshaller Unmarshaller) {
 }
 
 func (s *Session) Stop() (err error) {
-	err = s.Logout()
-	if err != nil {
-		return fmt.Errorf("sendWithErrorCheck logout request: %w", err)
-	}
-
 	// Drop the application's event handlers before (not after) the logout callback below is
 	// registered: a deferred Clean() used to wipe that callback as well, so the peer's Logout
 	// answer never cancelled the session and only the close timeout did.
@@ -726,12 +721,19 @@ func (s *Session) Stop() (err error) {
 		s.cancel()
 	})
 
+	// The callback has to be in place before the Logout is sent: a peer that answers at once is
+	// served by the handler goroutine while this one is still inside Logout().
 	s.OnChangeState(utils.EventLogout, func() bool {
 		delayTimer.Stop()
 		s.cancel()
 
 		return true
 	})
+
+	err = s.Logout()
+	if err != nil {
+		return fmt.Errorf("sendWithErrorCheck logout request: %w", err)
+	}
 
 	return nil
 }
